@@ -390,7 +390,7 @@ fn real_evaluate(t: &T, known: &BTreeMap<String, i64>, deferred: &[String]) -> O
 	{
 		Ok((Ok(Evaluation::Complete{changed}), tree)) => Out::Ok{changed, cause: None, tree},
 		Ok((Ok(Evaluation::Deferred{changed, cause}), tree)) => Out::Ok{changed, cause: Some(cause.as_ref().to_owned()), tree},
-		Ok((Err(EvalError::NoSuchVariable{name, ..}), _)) => Out::Err(format!("nosuch {}", hex(name.as_ref().as_bytes()))),
+		Ok((Err(EvalError::NoSuchVariable{name, ..}), tree)) => Out::Err(format!("nosuch {} {}", hex(name.as_ref().as_bytes()), tree.text())),
 		Ok((Err(EvalError::BadType{kind, op}), _)) => Out::Err(format!("badtype {} {}", ty_name(kind), ty_name(op))),
 		Ok((Err(EvalError::Overflow(e)), _)) => Out::Err(format!("overflow {}", ov_name(&e))),
 		Err(p) => Out::Panic(p),
@@ -652,11 +652,11 @@ fn check_orders(cx: &mut Cx, t: &T, binds: &Binds)
 	cx.report.compare("model.simp.simplify", &input, &m, &s1.simp_text());
 	// order 2: evaluate now directly
 	let e_now = real_evaluate(t, &known, &deferred);
-	let m = cx.model.ask(&format!("simp evaluate {btok_now} T {}", t.text()));
+	let m = cx.model.ask(&format!("simp evaluatet {btok_now} T {}", t.text()));
 	cx.report.compare("model.simp.evaluate", &input, &m, &e_now.eval_text());
 	// order 3: everything known from the start
 	let e_all = real_evaluate(t, &all, &[]);
-	let m = cx.model.ask(&format!("simp evaluate {btok_all} T {}", t.text()));
+	let m = cx.model.ask(&format!("simp evaluatet {btok_all} T {}", t.text()));
 	cx.report.compare("model.simp.evaluate", &input, &m, &e_all.eval_text());
 	// substitute everything first, then simplify: the same tree as order 3
 	let sub = real_simplify(&t.subst(&all));
@@ -666,14 +666,14 @@ fn check_orders(cx: &mut Cx, t: &T, binds: &Binds)
 	if let Some(t1) = s1.tree()
 	{
 		let e1 = real_evaluate(t1, &known, &deferred);
-		let m = cx.model.ask(&format!("simp evaluate {btok_now} T {}", t1.text()));
+		let m = cx.model.ask(&format!("simp evaluatet {btok_now} T {}", t1.text()));
 		cx.report.compare("model.simp.evaluate", &format!("E {} T {}", replay_binding_tokens(binds), t1.text()), &m, &e1.eval_text());
 		match e1.tree()
 		{
 			Some(t2) =>
 			{
 				let e2 = real_evaluate(t2, &all, &[]);
-				let m = cx.model.ask(&format!("simp evaluate {btok_all} T {}", t2.text()));
+				let m = cx.model.ask(&format!("simp evaluatet {btok_all} T {}", t2.text()));
 				cx.report.compare("model.simp.evaluate", &format!("E {} T {}", replay_binding_tokens(binds), t2.text()), &m, &e2.eval_text());
 				finals.push(("simplify;evaluate(now);evaluate(all)", e2));
 			},
@@ -688,6 +688,33 @@ fn check_orders(cx: &mut Cx, t: &T, binds: &Binds)
 	{
 		Some(t1) => finals.push(("evaluate(now);evaluate(all)", real_evaluate(t1, &all, &[]))),
 		None => finals.push(("evaluate(now)", e_now.clone())),
+	}
+	// inside a file an unknown name is NoSuchVariable: the statement keeps the partly evaluated tree and retries later
+	{
+		let e_local = real_evaluate(t, &known, &[]);
+		let btok_local: String = binds.iter().filter_map(|(n, b)| match b
+		{
+			Bind::Known(x) => Some(format!("k:{}={x}", hex(n.as_bytes()))),
+			Bind::Reg => Some(format!("r:{}", hex(n.as_bytes()))),
+			Bind::Later(_) => None,
+		}).collect::<Vec<_>>().join(" ");
+		let m = cx.model.ask(&format!("simp evaluatet {btok_local} T {}", t.text()));
+		cx.report.compare("model.simp.evaluateT", &input, &m, &e_local.eval_text());
+		match &e_local
+		{
+			Out::Err(e) if e.starts_with("nosuch ") =>
+			{
+				cx.report.hit("retry:nosuch");
+				let tree_txt = e.splitn(3, ' ').nth(2).unwrap_or("");
+				match T::parse_text(tree_txt)
+				{
+					Some(tp) => finals.push(("evaluate(now, unknown names);retry evaluate(all)", real_evaluate(&tp, &all, &[]))),
+					None => cx.report.oracle_fail(input.clone(), format!("cannot re-read the tree left by NoSuchVariable: {tree_txt}")),
+				}
+			},
+			Out::Ok{tree, ..} => finals.push(("evaluate(now, unknown names);evaluate(all)", real_evaluate(tree, &all, &[]))),
+			_ => (),
+		}
 	}
 	finals.push(("evaluate(all)", e_all.clone()));
 	finals.push(("substitute;simplify", sub.clone()));
@@ -1091,10 +1118,10 @@ fn gen_binds(rng: &mut Rng, t: &T) -> Binds
 	{
 		if is_reg(&n) {m.insert(n, Bind::Reg); continue;}
 		let v = if big {literal(rng)} else if rng.chance(1, 12) {literal(rng)} else {rng.range(-20, 20)};
-		match rng.below(12)
+		match rng.below(36)
 		{
 			0 => (), // undefined
-			1..=5 => {m.insert(n, Bind::Known(v));},
+			1..=15 => {m.insert(n, Bind::Known(v));},
 			_ => {m.insert(n, Bind::Later(v));},
 		}
 	}
